@@ -1,8 +1,455 @@
 import Grass.Proto
-/- Core `Extend` — stub; replaced by the model (see DESIGN.md §8). -/
+import Grass.Selector
+/-
+  C10 core — `@extend`.
+  Mirrors crates/compiler/src/selector/extend/mod.rs (`extend_list` :202, `extend_complex` :244,
+  `extend_compound` :355, `extend_simple`/`without_pseudo` :524/:706, `trim` :775, `add_selector`
+  :863, `add_extension` :938), extend/functions.rs (`paths` :708, `unify_complex` :13 on single
+  compounds), extend/extension.rs:68 (media check), evaluate/visitor.rs `visit_extend_rule`.
+
+  Modelled fragment: selectors without selector pseudos, extensions whose target is one simple
+  selector and whose extender is a list of single compounds, no extension chains (no extender
+  contains a target).  `weave` on real complex extenders, `extend_pseudo`, and
+  `extend_existing_extensions` are NOT modelled: `run` answers `unsupported` there.
+
+  As-found switches (theorems are about `false`, the correspondence runs with `true`):
+  * `mediaCheckNoop`      — D16: `assert_compatible_media_context` (extension.rs:68) does nothing;
+  * `mandatoryNotTracked` — D18: no "target selector was not found" error exists;
+  * `supAsFound`          — C11-S1: `trim` uses the superselector walk as it stands.
+-/
 namespace Grass.Extend
+open Grass.Selector
+
+structure Ext where
+  extender : Compound          -- one complex of the extender rule's selector: a single compound
+  target   : Simple
+  optional : Bool
+  media    : Option Nat        -- media context the `@extend` was written in (none = top level)
+  deriving DecidableEq, Repr, Inhabited
+
+inductive XErr where
+  | crossMedia       -- "You may not @extend selectors across media queries."
+  | missingTarget    -- "The target selector was not found."
+  | mediaMerge       -- "You may not @extend the same selector from within different media queries." (merged.rs)
+  | unsupported
+  deriving DecidableEq, Repr, Inhabited
+
+structure Switches where
+  mediaCheckNoop      : Bool
+  mandatoryNotTracked : Bool
+  supAsFound          : Bool
+  deriving DecidableEq, Repr, Inhabited
+
+def Switches.spec : Switches := ⟨false, false, false⟩
+def Switches.asFound : Switches := ⟨true, true, true⟩
+
+/-- one alternative for a simple selector of a compound: the simple itself (`is_original`) or an extender -/
+structure Opt where
+  comp       : Compound
+  isOriginal : Bool
+  media      : Option Nat
+  deriving DecidableEq, Repr, Inhabited
+
+def origOpt (c : Compound) : Opt := ⟨c, true, none⟩
+def extOpt (e : Ext) : Opt := ⟨e.extender, false, e.media⟩
+
+def extendersOf (exts : List Ext) (s : Simple) : List Ext := exts.filter (fun e => e.target = s)
+
+/-- `paths` (functions.rs:708): the first choice varies fastest, the first path takes every first option -/
+def paths {α : Type} (choices : List (List α)) : List (List α) :=
+  choices.foldl (fun ps choice => choice.flatMap fun o => ps.map (· ++ [o])) [[]]
+
+/-- the `options` vector of `extend_compound` (mod.rs:366–398) -/
+def buildOptions (exts : List Ext) : Compound → Compound → Option (List (List Opt)) → Option (List (List Opt))
+  | _, [], acc => acc
+  | pre, s :: rest, acc =>
+    let es := extendersOf exts s
+    if es.isEmpty then
+      match acc with
+      | some v => buildOptions exts (pre ++ [s]) rest (some (v ++ [[origOpt [s]]]))
+      | none => buildOptions exts (pre ++ [s]) rest none
+    else
+      let entry := origOpt [s] :: es.map extOpt
+      match acc with
+      | none => buildOptions exts (pre ++ [s]) rest (some ((if pre.isEmpty then [] else [[origOpt pre]]) ++ [entry]))
+      | some v => buildOptions exts (pre ++ [s]) rest (some (v ++ [entry]))
+
+/-- `unify_complex` (functions.rs:13) on single compounds: the simples of every later compound are
+    folded into the first one -/
+def unifyInto : Compound → List Compound → Option Compound
+  | base, [] => some base
+  | base, c :: rest =>
+    match unifyCompound c base with
+    | some b => unifyInto b rest
+    | none => none
+
+def unifyAll : List Compound → Option Compound
+  | [] => none
+  | base :: rest => unifyInto base rest
+
+/-- one path of `extend_compound` (mod.rs:454–512), not the first -/
+def unifyPath (path : List Opt) : Option Compound :=
+  let originals := (path.filter (·.isOriginal)).flatMap (·.comp)
+  let others := (path.filter (fun o => !o.isOriginal)).map (·.comp)
+  unifyAll (if originals.isEmpty then others else originals :: others)
+
+/-- the media check of extension.rs:68 as specified (dart-sass `assertCompatibleMediaContext`) -/
+def mediaOk (ruleMedia : Option Nat) (o : Opt) : Bool :=
+  match o.media with
+  | none => true
+  | some m => ruleMedia = some m
+
+abbrev Flagged := Complex × Bool     -- a complex with "is original" (identity in `originals`)
+
+def maxSourceSpec (srcSpec : Simple → Nat) (x : Complex) : Nat :=
+  x.foldl (fun n cp => match cp with
+    | .comb _ => n
+    | .compound c => c.foldl (fun m s => Nat.max m (srcSpec s)) n) 0
+
+/-- the duplicate-original test of mod.rs:803–808 with `rotate_slice(result, 0, j + 1)`: the first of the
+    `n` leading kept selectors equal to `c1` is moved to the front -/
+def pullOut (c1 : Complex) : Nat → List Flagged → Option (Flagged × List Flagged)
+  | 0, _ => none
+  | _, [] => none
+  | n + 1, r :: rs =>
+    if r.1 = c1 then some (r, rs)
+    else match pullOut c1 n rs with
+      | some (f, rest) => some (f, r :: rest)
+      | none => none
+
+/-- body of `trim` (mod.rs:797–850) on the reversed input: `rest` are the selectors not yet visited
+    (last first), `result` the kept ones -/
+def trimGo (sup : Complex → Complex → Bool) (srcSpec : Simple → Nat) :
+    List Flagged → List Flagged → Nat → List Flagged
+  | [], result, _ => result
+  | (c1, true) :: earlier, result, n =>
+    match pullOut c1 n result with
+    | some (f, rest) => trimGo sup srcSpec earlier (f :: rest) n
+    | none => trimGo sup srcSpec earlier ((c1, true) :: result) (n + 1)
+  | (c1, false) :: earlier, result, n =>
+    let ms := maxSourceSpec srcSpec c1
+    let covered := fun (c2 : Flagged) => decide (c2.1.minSpecificity ≥ ms) && sup c2.1 c1
+    if result.any covered || earlier.any covered then trimGo sup srcSpec earlier result n
+    else trimGo sup srcSpec earlier ((c1, false) :: result) n
+
+/-- `ExtensionStore::trim` (mod.rs:775) -/
+def trim (sup : Complex → Complex → Bool) (srcSpec : Simple → Nat) (sels : List Flagged) : List Flagged :=
+  if sels.length > 100 then sels else trimGo sup srcSpec sels.reverse [] 0
+
+/-- `source_specificity` (mod.rs:989): specificity of the first extender that contains the simple -/
+def srcSpecOf (exts : List Ext) (s : Simple) : Nat :=
+  match exts.find? (fun e => e.extender.contains s) with
+  | some e => (specC e.extender).1
+  | none => 0
+
+def checkMedia (sw : Switches) (ruleMedia : Option Nat) (path : List Opt) : Bool :=
+  sw.mediaCheckNoop || path.all (mediaOk ruleMedia)
+
+/-- `extend_compound` (mod.rs:355), Normal mode.  `ok none` = no extension applies. -/
+def extendCompound (sw : Switches) (exts : List Ext) (ruleMedia : Option Nat) (inOriginal : Bool)
+    (c : Compound) : Except XErr (Option (List Complex)) :=
+  match buildOptions exts [] c none with
+  | none => .ok none
+  | some options =>
+    match options with
+    | [single] =>
+      if checkMedia sw ruleMedia single then .ok (some (single.map fun o => [.compound o.comp]))
+      else .error .crossMedia
+    | _ =>
+      match paths options with
+      | [] => .ok (some [])
+      | first :: others =>
+        let unified : List (List Opt × Compound) :=
+          (first, first.flatMap (·.comp)) :: others.filterMap fun p => (unifyPath p).map fun u => (p, u)
+        if unified.all (fun pu => checkMedia sw ruleMedia pu.1) then
+          let flagged : List Flagged :=
+            match unified with
+            | [] => []
+            | f :: r => ([.compound f.2], inOriginal) :: r.map fun pu => ([.compound pu.2], false)
+          .ok (some ((trim (isSuperComplex0 sw.supAsFound) (srcSpecOf exts) flagged).map (·.1)))
+        else .error .crossMedia
+
+/-- `extended_not_expanded` of `extend_complex` (mod.rs:267–310) -/
+def complexChoices (sw : Switches) (exts : List Ext) (ruleMedia : Option Nat) (isOrig : Bool) :
+    Complex → Except XErr (List (List Complex) × Bool)
+  | [] => .ok ([], false)
+  | .comb cb :: rest =>
+    match complexChoices sw exts ruleMedia isOrig rest with
+    | .error e => .error e
+    | .ok (chs, any) => .ok ([[.comb cb]] :: chs, any)
+  | .compound c :: rest =>
+    match extendCompound sw exts ruleMedia isOrig c, complexChoices sw exts ruleMedia isOrig rest with
+    | .error e, _ => .error e
+    | _, .error e => .error e
+    | .ok none, .ok (chs, any) => .ok ([[.compound c]] :: chs, any)
+    | .ok (some ext), .ok (chs, _) => .ok (ext :: chs, true)
+
+/-- `extend_complex` (mod.rs:244): every extender is a single compound, so `weave` of a path is the
+    concatenation of its components -/
+def extendComplex (sw : Switches) (exts : List Ext) (ruleMedia : Option Nat) (x : Flagged) :
+    Except XErr (Option (List Flagged)) :=
+  match complexChoices sw exts ruleMedia x.2 x.1 with
+  | .error e => .error e
+  | .ok (_, false) => .ok none
+  | .ok (chs, true) =>
+    match (paths chs).map (fun p => p.flatMap id) with
+    | [] => .ok (some [])
+    | f :: r => .ok (some ((f, x.2) :: r.map fun y => (y, false)))
+
+def extendEach (sw : Switches) (exts : List Ext) (ruleMedia : Option Nat) :
+    List Flagged → Except XErr (List Flagged × Bool)
+  | [] => .ok ([], false)
+  | x :: rest =>
+    match extendComplex sw exts ruleMedia x, extendEach sw exts ruleMedia rest with
+    | .error e, _ => .error e
+    | _, .error e => .error e
+    | .ok none, .ok (r, any) => .ok (x :: r, any)
+    | .ok (some ys), .ok (r, _) => .ok (ys ++ r, true)
+
+/-- `extend_list` (mod.rs:202) -/
+def extendList (sw : Switches) (exts : List Ext) (ruleMedia : Option Nat) (l : List Flagged) :
+    Except XErr (List Flagged) :=
+  match extendEach sw exts ruleMedia l with
+  | .error e => .error e
+  | .ok (_, false) => .ok l
+  | .ok (ext, true) => .ok (trim (isSuperComplex0 sw.supAsFound) (srcSpecOf exts) ext)
+
+/-! ### the store: rules and `@extend`s in document order (mod.rs:863, :938; visitor.rs:1290) -/
+
+inductive Item where
+  | rule (sel : SelList) (media : Option Nat)
+  | extend (extender : SelList) (target : Simple) (optional : Bool) (media : Option Nat)
+  deriving Repr, Inhabited
+
+structure Rule where
+  original : SelList
+  current  : List Flagged
+  media    : Option Nat
+  deriving Repr, Inhabited
+
+structure Store where
+  rules : List Rule
+  exts  : List Ext
+  deriving Repr, Inhabited
+
+def simplesOf (x : Complex) : List Simple :=
+  x.flatMap fun | .comb _ => [] | .compound c => c
+
+def inFragment (l : SelList) : Bool := noSelL l && !l.containsParent
+
+def asCompounds (l : SelList) : Option (List Compound) :=
+  l.mapM fun x => match x with | [.compound c] => some c | _ => none
+
+/-- `add_selector` (mod.rs:863) -/
+def addSelector (sw : Switches) (st : Store) (sel : SelList) (media : Option Nat) : Except XErr Store :=
+  if !inFragment sel then .error .unsupported else
+  let flagged : List Flagged := sel.map fun x => (x, !SelList.isInvisible sel)
+  match (if st.exts.isEmpty then .ok flagged else extendList sw st.exts media flagged) with
+  | .error e => .error e
+  | .ok cur => .ok { st with rules := st.rules ++ [⟨sel, cur, media⟩] }
+
+def reextend (sw : Switches) (newExts : List Ext) : List Rule → Except XErr (List Rule)
+  | [] => .ok []
+  | r :: rs =>
+    match extendList sw newExts r.media r.current, reextend sw newExts rs with
+    | .error e, _ => .error e
+    | _, .error e => .error e
+    | .ok cur, .ok rs' => .ok ({ r with current := cur } :: rs')
+
+/-- `add_extension` (mod.rs:938) for one `@extend` of a rule whose selector is `extender` -/
+def addExtension (sw : Switches) (st : Store) (extender : SelList) (target : Simple) (optional : Bool)
+    (media : Option Nat) : Except XErr Store :=
+  match asCompounds extender with
+  | none => .error .unsupported
+  | some comps =>
+    if target.isSel || target.isParent || !noSelL extender then .error .unsupported else
+    -- chains (an extender that mentions a target, or this target mentioned by an extender): not modelled
+    if st.exts.any (fun e => e.extender.contains target) || comps.any (fun c => c.contains target) ||
+       comps.any (fun c => st.exts.any (fun e => c.contains e.target)) then .error .unsupported else
+    -- MergedExtension::merge (merged.rs): same extender and target from two different media contexts
+    if comps.any (fun c => st.exts.any (fun e => e.extender = c && e.target = target &&
+        e.media.isSome && media.isSome && e.media ≠ media)) then .error .mediaMerge else
+    let fresh := comps.filter fun c => !st.exts.any (fun e => e.extender = c && e.target = target)
+    let newExts := fresh.map fun c => (⟨c, target, optional, media⟩ : Ext)
+    let allExts := st.exts ++ newExts
+    -- source_specificity is complete before `extend_existing_selectors` runs (mod.rs:989, :1021)
+    match reextend sw newExts (st.rules.map fun r => r) with
+    | .error e => .error e
+    | .ok rules => .ok { rules := rules, exts := allExts }
+
+def runItems (sw : Switches) : Store → List Item → Except XErr Store
+  | st, [] => .ok st
+  | st, .rule sel media :: rest =>
+    match addSelector sw st sel media with
+    | .error e => .error e
+    | .ok st' => runItems sw st' rest
+  | st, .extend ex t o m :: rest =>
+    match addExtension sw st ex t o m with
+    | .error e => .error e
+    | .ok st' => runItems sw st' rest
+
+/-- a mandatory extension is satisfied when its target occurs in the selector of some style rule -/
+def targetFound (rules : List Rule) (t : Simple) : Bool :=
+  rules.any fun r => r.original.any fun x => (simplesOf x).contains t
+
+/-- the whole run: final selector of every rule, or the error the stylesheet must produce -/
+def run (sw : Switches) (items : List Item) : Except XErr (List SelList) :=
+  match runItems sw ⟨[], []⟩ items with
+  | .error e => .error e
+  | .ok st =>
+    if !sw.mandatoryNotTracked && st.exts.any (fun e => !e.optional && !targetFound st.rules e.target)
+    then .error .missingTarget
+    else .ok (st.rules.map fun r => r.current.map (·.1))
+
+/-! ### "extenders are credited with the target": the semantics `@extend` has to implement -/
+
+mutual
+def cSimple (credit : Simple → Ctx → Bool) : Simple → Ctx → Bool
+  | .sel k arg, p =>
+    (match k with
+     | .not => !(cArgs credit arg p)
+     | _ => cArgs credit arg p) || credit (.sel k arg) p
+  | .univ, p => mSimple .univ p || credit .univ p
+  | .type n, p => mSimple (.type n) p || credit (.type n) p
+  | .cls n, p => mSimple (.cls n) p || credit (.cls n) p
+  | .id n, p => mSimple (.id n) p || credit (.id n) p
+  | .attr n v, p => mSimple (.attr n v) p || credit (.attr n v) p
+  | .pclass n, p => mSimple (.pclass n) p || credit (.pclass n) p
+  | .pelem n, p => mSimple (.pelem n) p || credit (.pelem n) p
+  | .placeholder n, p => credit (.placeholder n) p
+  | .parent s, p => credit (.parent s) p
+def cArgs (credit : Simple → Ctx → Bool) : List (List Simple × List (Rel × List Simple)) → Ctx → Bool
+  | [], _ => false
+  | (t, rest) :: cs, p => (cComp credit t p && cSteps credit rest p) || cArgs credit cs p
+def cSteps (credit : Simple → Ctx → Bool) : List (Rel × List Simple) → Ctx → Bool
+  | [], _ => true
+  | (r, c) :: rest, p => (steps r p).any fun q => cComp credit c q && cSteps credit rest q
+def cComp (credit : Simple → Ctx → Bool) : List Simple → Ctx → Bool
+  | [], _ => true
+  | s :: ss, p => cSimple credit s p && cComp credit ss p
+end
+
+def cComplex (credit : Simple → Ctx → Bool) (X : Complex) (p : Ctx) : Bool :=
+  match norm X with
+  | some r => cComp credit r.1 p && cSteps credit r.2 p
+  | none => false
+
+def cList (credit : Simple → Ctx → Bool) (L : SelList) (p : Ctx) : Bool := L.any (cComplex credit · p)
+
+/-- a single-compound extension: elements matched by `E` count as matching `T` -/
+def credit1 (E : Compound) (T : Simple) : Simple → Ctx → Bool :=
+  fun s p => decide (s = T) && mComp E p
+
+/-- `matchesCredited S E T`: the original selector, extenders credited with the target -/
+def matchesCredited (S : SelList) (E : Compound) (T : Simple) (p : Ctx) : Bool := cList (credit1 E T) S p
+
+/-- chains and cycles: credit through at most `n` extension steps (complex extenders allowed) -/
+def creditN (exts : List (SelList × Simple)) : Nat → Simple → Ctx → Bool
+  | 0 => fun _ _ => false
+  | n + 1 => fun s p => exts.any fun et => decide (et.2 = s) && cList (creditN exts n) et.1 p
+
+/-! ### driver entry points -/
+open Grass.Proto
+
+def xerrStr : XErr → String
+  | .crossMedia => "cross-media" | .missingTarget => "missing-target" | .mediaMerge => "media-merge"
+  | .unsupported => "unsupported"
+
+def mediaOfStr (s : String) : Option (Option Nat) :=
+  if s == "-" then some none else s.toNat?.map some
+
+def targetOfStr (h : String) : Option Simple :=
+  match decodeSel h with
+  | some [[.compound [s]]] => some s
+  | _ => none
+
+/-- items: `R <media> <hexsel>` | `E <media> <opt> <hextarget> <hexextender>` -/
+def parseItems : List String → Option (List Item)
+  | [] => some []
+  | "R" :: m :: s :: rest => do
+    let m ← mediaOfStr m; let s ← decodeSel s; let r ← parseItems rest
+    some (.rule s m :: r)
+  | "E" :: m :: o :: t :: e :: rest => do
+    let m ← mediaOfStr m; let o ← parseBool? o; let t ← targetOfStr t; let e ← decodeSel e
+    let r ← parseItems rest
+    some (.extend e t o m :: r)
+  | _ => none
+
+def selOut (l : SelList) : String :=
+  let v := l.filter (fun c => !c.isInvisible)
+  if v.isEmpty then "-" else encodeChars (renderList v)
+
+def hasPlaceholder (l : SelList) : Bool := l.any fun x => (simplesOf x).any Simple.isPlaceholder
+
+/-- extension pairs (extender selector, target) of a stylesheet, for the credited semantics -/
+def extPairs : List Item → List (SelList × Simple)
+  | [] => []
+  | .extend e t _ _ :: rest => (e, t) :: extPairs rest
+  | _ :: rest => extPairs rest
+
+/-- what the property demands of a stylesheet, independent of how extension is carried out:
+    a mandatory `@extend` whose target occurs in no style rule must be an error, and so must an
+    `@extend` written inside `@media` whose target sits in a rule of another media context -/
+def expectErrors (items : List Item) : List XErr :=
+  let rules : List (SelList × Option Nat) := items.filterMap fun | .rule s m => some (s, m) | _ => none
+  let exts : List (Simple × Bool × Option Nat) := items.filterMap fun | .extend _ t o m => some (t, o, m) | _ => none
+  let missing := exts.any fun (t, o, _) => !o && !rules.any fun (s, _) => (allSimples s).contains t
+  let cross := exts.any fun (t, _, m) =>
+    match m with
+    | none => false
+    | some mm => rules.any fun (s, rm) => decide (rm ≠ some mm) && (allSimples s).contains t
+  (if cross then [.crossMedia] else []) ++ (if missing then [.missingTarget] else [])
 
 def handle : List String → String
+  | "expect" :: rest =>
+    match parseItems rest with
+    | some items => "ok" ++ String.join ((expectErrors items).map fun e => " " ++ xerrStr e)
+    | none => "unsupported"
+  | "run" :: a :: b :: c :: rest =>
+    match parseBool? a, parseBool? b, parseBool? c with
+    | some a, some b, some c =>
+      match parseItems rest with
+      | none => "unsupported"
+      | some items =>
+        match run ⟨a, b, c⟩ items with
+        | .ok ls => "ok " ++ " ".intercalate (ls.map selOut)
+        | .error .unsupported => "unsupported"
+        | .error e => "err " ++ xerrStr e
+    | _, _, _ => "bad-op"
+  | "credited" :: mode :: seed :: n :: exh :: orig :: out :: rest =>
+    -- P̂ on the implementation's output `out` for the rule whose source selector is `orig`:
+    --   mode iff : ∀ ctx, matches out ctx ↔ credited orig ctx
+    --   mode sub : ∀ ctx, matches out ctx → credited orig ctx   (complex extenders)
+    --   mode law : ∀ ctx, matches orig ctx → matches out ctx    (first law, no :not)
+    match seed.toNat?, n.toNat?, parseBool? exh with
+    | some seed, some n, some exh =>
+      match decodeSel orig, (if out == "-" then some [] else decodeSel out), parseItems rest with
+      | some S, some O, some items =>
+        let pairs := extPairs items
+        let cr := creditN pairs (pairs.length + 1)
+        let u := ctxUniverse ([S, O] ++ pairs.map (·.1) ++ pairs.map (fun et => [[.compound [et.2]]])) seed n exh
+        if mode == "iff" then
+          verdict u (fun p => matchesList O p || cList cr S p) (fun p => matchesList O p == cList cr S p)
+        else if mode == "sub" then
+          verdict u (fun p => matchesList O p) (fun p => cList cr S p)
+        else if mode == "law" then
+          verdict u (fun p => matchesList S p) (fun p => matchesList O p)
+        else "bad-op"
+      | _, _, _ => "unsupported"
+    | _, _, _ => "bad-op"
+  | ["noplaceholder", out] =>
+    match decodeSel out with
+    | some l => "ok " ++ boolStr (!hasPlaceholder l)
+    | none => "unsupported"
+  | ["specific", ext, out] =>
+    -- generated selectors are at least as specific as their extender: every complex of `out`
+    -- whose simples include all simples of some extender complex has specificity ≥ that extender's
+    match decodeSel ext, decodeSel out with
+    | some E, some O =>
+      let bad := O.any fun x => E.any fun e =>
+        (simplesOf e).all (fun s => (simplesOf x).contains s) && decide ((specComplex x).2 < (specComplex e).1)
+      "ok " ++ boolStr (!bad)
+    | _, _ => "unsupported"
   | _ => "bad-op"
 
 end Grass.Extend
